@@ -177,9 +177,23 @@ def same_value(E, cur, snap):
         return conj([same_value(E, x, sv) for x, sv in zip(cur, snap[2])])
     if k == 'val':
         return _eq(E, cur, snap[1])
-    h = getattr(cur, '__same_as_snapshot__', None)
-    if h is not None:
-        return h(E, snap)
+    if k == 'nd' and getattr(E, 'valuation', None) is not None:
+        # replay on the real code: arrays are compared by content (objects are re-lifted after the call)
+        import numpy as np
+        _, arr, buf, get, axes, fixed = snap
+        from .ndarr import NDArr
+        if not isinstance(cur, NDArr):
+            return False
+        before = NDArr(type(buf).__new__(type(buf)), axes, fixed)
+        before.buf.__dict__.update(buf.__dict__)
+        before.buf.get = get
+        a, b = before.to_numpy(E), cur.to_numpy(E)
+        return a.shape == b.shape and a.dtype == b.dtype and bool(np.array_equal(a, b))
+    if k == 'nd':
+        # an array value is unchanged iff it is still the same view of the same buffer and nothing was stored
+        # through any view of that buffer since the snapshot (stores replace the buffer's element function)
+        _, arr, buf, get, axes, fixed = snap
+        return cur is arr and cur.buf is buf and buf.get is get and cur.axes == axes and cur.fixed == fixed
     raise Unsupported(f'same_value {k}')
 
 
@@ -273,10 +287,27 @@ class Realizer:
             return [s.real(x) for x in v]
         if isinstance(v, dict):
             return {k: s.real(x) for k, x in v.items()}
-        h = getattr(v, '__realize__', None)
-        if h is not None:
-            return h(s)
+        if type(v).__name__ == 'NDArr':
+            return v.to_numpy(s.E)
         return v
+
+    def real_Field(s, v):
+        a = v.attrs
+        mesh = s.real(a['_mesh'])
+        arr = a['_array'].to_numpy(s.E)
+        val = a['_valid'].to_numpy(s.E)
+        f = s.df.Field(mesh, nvdim=a['_nvdim'], value=arr, vdims=a['_vdims'], unit=a['_unit'], valid=val,
+                       vdim_mapping=dict(a['_vdim_mapping']), dtype=a.get('dtype'))
+        return f
+
+    def lift_ndarray(s, r):
+        k = 'bool' if r.dtype == bool else ('int' if s.np.issubdtype(r.dtype, s.np.integer) else ('complex' if s.np.iscomplexobj(r) else 'float'))
+        return s.E.data_array(r.copy(), k, 'lifted')
+
+    def refresh_Field(s, o, r):
+        o.attrs = {'_mesh': s.lift(r._mesh), '_nvdim': int(r._nvdim), 'dtype': r.dtype, '_unit': r._unit,
+                   '_valid': s.lift_ndarray(r._valid), '_array': s.lift_ndarray(r._array),
+                   '_vdims': list(r._vdims) if r._vdims is not None else None, '_vdim_mapping': dict(r._vdim_mapping)}
 
     # -- real -> symbolic-domain (with exact rationals of the doubles)
     def lift(s, r):
@@ -295,10 +326,7 @@ class Realizer:
                 return Vec([s.lift(x) for x in r.tolist()], k)
             if r.ndim == 0:
                 return s.lift(r.item())
-            h = getattr(s, 'lift_ndarray', None)
-            if h is None:
-                raise Unsupported('lift n-d array')
-            return h(r)
+            return s.lift_ndarray(r)
         if isinstance(r, (bool, np.bool_)):
             return bool(r)
         if isinstance(r, (int, np.integer)):
